@@ -36,6 +36,28 @@ CLAIMED = {
          'gin.config by random histories of finalize, nested unlock blocks (normal and raising exit), binds, registrations, clears and '
          'data-driven hooks, with an independent Python reference state machine judging the implementation.',
          BASE + 'Hooks are characterised by what they return or raise.'),
+ 'C14': ('Theorems resolve_sound / resolve_none_iff / resolve_first (location-major, reader-minor order) / resolve_absolute / '
+         'missing_include_applies_nothing / include_applies_in_place (state threading and returned include/import tree) / '
+         'entry_point_bindings_then_finalize / entry_point_missing_file_stops hold for every file tree, location and reader list; tied '
+         'to gin.config by include trees in real temporary files parsed through all three entry points (default arguments), compared '
+         'with the mirror and with a fresh-interpreter parse of the flattened text, and by 1-4 locations x 1-3 readers with the file '
+         'present at random subsets, relative and absolute names.',
+         BASE + 'Partial: path joining, isfile and file I/O are the OS\'s; package-relative names (resource_reader) are not modelled; '
+         'the flatten-equivalence for the whole store is checked by the fresh-interpreter comparison, not yet a Lean theorem.'),
+ 'C15': ('Theorems skip_decision / known_never_skipped / skipped_binding_is_noop / skipped_block_is_noop / missing_import / '
+         'noop_can_be_deleted (deleting no-op statements anywhere in a text does not change the result) / unlisted_unknown_errors / '
+         'placeholder_kept / unknown_reference_errors / placeholder_raises_on_use / placeholder_rejected_at_finalize hold for every '
+         'state, text and skip_unknown form; tied to gin.config by texts mixing known/unknown targets, references, macros, blocks and '
+         'imports under every form of skip_unknown, compared with the mirror and with a fresh-interpreter parse of the reduced text.',
+         BASE + 'Static registration; D20 (an unknown unlisted reference inside a skipped statement) excluded by hypothesis.'),
+ 'C16': ('Theorems failure_stops / success_continues / failed_parse_ignores_rest / failing_statement_changes_nothing / '
+         'parse_keeps_lock_and_registry (mutual induction over nested includes) / include_extends_chain / semantic_error_located / '
+         'provenance_last_setter hold for every statement list, include depth and fault position; tied to gin.config by injecting '
+         'every fault kind of the property at every statement position of generated include trees in real files, comparing store, '
+         'provenance comments, recorded imports, lock flag, scope and the error location chain with the mirror and with a '
+         'fresh-interpreter parse of the flattened prefix. D17 is a recorded known finding.',
+         BASE + 'The tokenizer and parser proper are outside this model (C02/C03 not yet built); location chains are read from the '
+         'exception message; statements rendered one per line.'),
  'C20': ('Theorems clear_total / clear_pristine / clear_fields / clear_constants / clear_observationally_fresh (every continuation of '
          'operations) / clear_idempotent hold for every state; tied to gin.config by random histories (binds, finalize, nested unlocks, '
          'calls under scopes, singleton uses, colliding constants in interactive mode, failed operations) followed by clear_config and a '
